@@ -8,7 +8,7 @@ from .. import gens
 TWO_PI = 2 * np.pi
 
 RULE = ("Cases: (stat) label vectors with K<=12 cycles of length 1..20 and -1 gaps anywhere x float values x "
-        "funcs {mean,max,sum,len,first,range} x out in {None,'samples'} x cycles given as vector / column; "
+        "funcs {mean,max,sum,len,first,range} x value dtype {float,int,bool} x out in {None,'samples'} x cycles given as vector / column; "
         "(align) monotone wrapped phases of 2-8 whole cycles of 8..400 samples x quantity g_c(phase) "
         "(linear, sin, cos2, cubic polynomial; optionally a different affine transform per cycle) x npoints "
         "2..64 x interp_kind in {linear,quadratic,cubic} x cycles from the phase / explicit vector / Cycles "
@@ -44,6 +44,11 @@ def stat_case(draw):
     if lab.size == 0:
         lab = np.array([-1])
     vals = np.round(rng.standard_normal(lab.size) * 10, 3)
+    dt = draw(st.sampled_from(['float', 'float', 'int', 'bool']))
+    if dt == 'int':
+        vals = np.round(vals).astype(int)
+    elif dt == 'bool':
+        vals = vals > 0
     return {'labels': lab, 'values': vals, 'func': draw(st.sampled_from(sorted(FUNCS))),
             'out': draw(st.sampled_from([None, 'samples'])), 'column': draw(st.booleans())}
 
@@ -51,16 +56,19 @@ def stat_case(draw):
 def oracle_stat(case, rec):
     import emd
     lab = np.asarray(case['labels'], dtype=int)
-    vals = np.asarray(case['values'], dtype=float)
+    vals = np.asarray(case['values'])      # float, int or bool observations
     func = FUNCS[case['func']]
     K = int(lab.max()) + 1
     cyc_in = lab.copy()[:, None] if case['column'] else lab.copy()
+    try:
+        stat = np.array([float(func(vals[lab == c])) for c in range(K)], dtype=float)
+    except TypeError:
+        raise Discard('the reducing function is not defined for this value dtype (e.g. max-min of booleans)')
     try:
         got = emd.cycles.get_cycle_stat(cyc_in, vals.copy(), out=case['out'], func=func)
     except Exception as e:
         raise Violation('C14/get_cycle_stat/raises/' + type(e).__name__, repr(e))
     got = np.asarray(got, dtype=float)
-    stat = np.array([float(func(vals[lab == c])) for c in range(K)], dtype=float)
     if case['out'] is None:
         exp = stat
     else:
@@ -74,6 +82,7 @@ def oracle_stat(case, rec):
                         'func %s got %r expected %r labels %r' % (case['func'], got.tolist()[:20], exp.tolist()[:20], lab.tolist()[:60]))
     lens = [int((lab == c).sum()) for c in range(K)]
     rec.cls('func=' + case['func'])
+    rec.cls('values=' + vals.dtype.kind)
     rec.cls('gaps' if (lab == -1).any() else 'nogaps')
     return K >= 2 and len(set(lens)) >= 2
 
